@@ -16,6 +16,7 @@ type Failure struct {
 }
 
 type Result struct {
+	perKey      map[string]int
 	mu          sync.Mutex
 	Evaluations int            `json:"evaluations"`
 	Distinct    int            `json:"distinct_nontrivial"`
@@ -64,7 +65,17 @@ func (r *Result) Note(format string, a ...any) {
 func (r *Result) Fail(key map[string]string, replay any, format string, a ...any) {
 	r.mu.Lock()
 	defer r.mu.Unlock()
-	if len(r.Failures) < 200 {
+	// keep a few examples per distinct key so that one noisy class cannot crowd out the others
+	ks := fmt.Sprint(key)
+	if r.perKey == nil {
+		r.perKey = map[string]int{}
+	}
+	r.perKey[ks]++
+	if r.perKey[ks] > 5 {
+		r.Counters["failures_dropped"]++
+		return
+	}
+	if len(r.Failures) < 400 {
 		r.Failures = append(r.Failures, Failure{Key: key, Desc: fmt.Sprintf(format, a...), Replay: replay})
 	} else {
 		r.Counters["failures_dropped"]++
